@@ -22,19 +22,29 @@ Definition same_cursor (s s' : state) : Prop :=
 Lemma switch_spec s t f i s' ok :
   switch s t f i = (s', ok) ->
   cfg s' = cfg s /\ regions s' = regions s /\ stores s' = stores s /\ bsz s' = bsz s /\
-  next_id s' = next_id s + 1 /\ files s' = Status t (next_id s) :: files s /\
+  next_id s <= next_id s' /\ (forall x, In x (files s) -> In x (files s')) /\
   (ok = true -> served s' = Some (Status t (next_id s)) /\ stored s' = Some (Status t (next_id s)) /\
                 used s' = next_id s :: used s /\
                 (t = SyncRecover -> cur_key s' = "" /\ cur_cnt s' = 0 /\ chain s' = []) /\
                 (t <> SyncRecover -> same_cursor s s')) /\
   (ok = false -> served s' = served s /\ used s' = used s /\ same_cursor s s' /\ dr_total s' = dr_total s /\
                  tot s' = tot s /\ synced s' = synced s /\
-                 (stored s' = stored s \/ stored s' = Some (Status t (next_id s)))).
+                 (stored s' = stored s \/ (stored s' = Some (Status t (next_id s)) /\ next_id s' = next_id s + 1))).
 Proof.
-  unfold switch. destruct (wr_cases f i) as [E|[E|E]]; rewrite E.
-  - destruct t; intros H; inv H; cbn; repeat split; auto; try discriminate; intros; try congruence; try contradiction.
-  - intros H; inv H; cbn. repeat split; auto; discriminate.
-  - intros H; inv H; cbn. repeat split; auto; discriminate.
+  unfold switch. destruct (alloc_fails f i).
+  { intros H; inv H. repeat split; auto; try lia; discriminate. }
+  destruct (wr_cases f i) as [E|[E|E]]; rewrite E.
+  - destruct t; intros H; inv H; cbn; repeat split; auto; try lia; try discriminate; intros; try congruence; try contradiction; auto.
+  - intros H; inv H; cbn. repeat split; auto; try lia; discriminate.
+  - intros H; inv H; cbn. repeat split; auto; try lia; discriminate.
+Qed.
+
+Lemma switch_ok_spec s t f i s' :
+  switch s t f i = (s', true) ->
+  next_id s' = next_id s + 1 /\ files s' = Status t (next_id s) :: files s /\ snd (wr f i) = true.
+Proof.
+  unfold switch. destruct (alloc_fails f i); [discriminate|].
+  destruct (wr f i) as [a b]. destruct b; [|discriminate]. destruct t; intros H; inv H; cbn; auto.
 Qed.
 
 (* "a failed persist leaves the served state unchanged" *)
@@ -42,9 +52,12 @@ Lemma failed_persist_keeps_state_pf s t f i : snd (wr f i) = false -> served (fs
 Proof.
   intros H. destruct (switch s t f i) as [s' ok] eqn:E.
   assert (ok = false).
-  { unfold switch in E. destruct (wr f i) as [a b]. cbn in H. subst b. inv E. reflexivity. }
+  { destruct ok; [|reflexivity]. destruct (switch_ok_spec _ _ _ _ _ E) as (_&_&W). congruence. }
   subst ok. destruct (switch_spec _ _ _ _ _ _ E) as (_&_&_&_&_&_&_&F). destruct (F eq_refl) as (A&_). exact A.
 Qed.
+(* ... and so does a failed AllocID *)
+Lemma failed_alloc_keeps_everything_pf s t f i : alloc_fails f i = true -> switch s t f i = (s, false).
+Proof. unfold switch. intros ->. reflexivity. Qed.
 
 (* "persisted (and offered to all members) before it is served" at the one place where a status is published *)
 Lemma publish_spec_pf s t f i s' :
@@ -52,9 +65,9 @@ Lemma publish_spec_pf s t f i s' :
   exists st, served s' = Some st /\ stored s' = Some st /\ hd_error (files s') = Some st /\
              st = Status t (next_id s) /\ snd (wr f i) = true.
 Proof.
-  intros H. destruct (switch_spec _ _ _ _ _ _ H) as (_&_&_&_&_&Fl&T&_). destruct (T eq_refl) as (A&B&_).
+  intros H. destruct (switch_spec _ _ _ _ _ _ H) as (_&_&_&_&_&_&T&_). destruct (T eq_refl) as (A&B&_).
+  destruct (switch_ok_spec _ _ _ _ _ H) as (_&Fl&W).
   exists (Status t (next_id s)). rewrite Fl. repeat split; auto.
-  unfold switch in H. destruct (wr f i) as [a b]. destruct b; [reflexivity|]. inv H.
 Qed.
 
 Lemma update_config_failed_pf s c f s' : update_config s c f = (s', false) -> served s' = served s /\ cfg s' = cfg s.
@@ -442,22 +455,23 @@ Lemma id_inv_switch st0 s t f i s' ok : switch s t f i = (s', ok) -> id_inv st0 
 Proof.
   intros H I. destruct I as [L N Sv Sl P O].
   destruct (switch_spec _ _ _ _ _ _ H) as (_&_&_&_&Ni&Fl&T&F). destruct ok.
-  - destruct (T eq_refl) as (A&B&U&_). constructor; rewrite ?Ni, ?U, ?A, ?B, ?Fl.
+  - destruct (T eq_refl) as (A&B&U&_). destruct (switch_ok_spec _ _ _ _ _ H) as (Ni'&Fl'&_).
+    constructor; rewrite ?Ni', ?U, ?A, ?B, ?Fl'.
     + intros j [<-|Hj]; [lia|specialize (L _ Hj); lia].
     + constructor; [|exact N]. intros Hin. specialize (L _ Hin). lia.
     + intros x Hx. inv Hx. left; reflexivity.
     + intros y Hy. inv Hy. cbn. lia.
     + intros x Hx. inv Hx. eexists; split; [reflexivity|]. split; [lia|auto].
     + intros x Hx. inv Hx. left; left; reflexivity.
-  - destruct (F eq_refl) as (A&U&_&_&_&_&St). constructor; rewrite ?Ni, ?U, ?A, ?Fl.
+  - destruct (F eq_refl) as (A&U&_&_&_&_&St). constructor; rewrite ?U, ?A.
     + intros j Hj. specialize (L _ Hj). lia.
     + exact N.
     + exact Sv.
-    + intros y Hy. destruct St as [St|St]; rewrite St in Hy; [specialize (Sl _ Hy); lia|inv Hy; cbn; lia].
-    + intros x Hx. destruct (P x Hx) as (y&Ey&Le&Eq). destruct St as [St|St]; rewrite St.
+    + intros y Hy. destruct St as [St|[St Nx]]; rewrite St in Hy; [specialize (Sl _ Hy); lia|inv Hy; cbn; lia].
+    + intros x Hx. destruct (P x Hx) as (y&Ey&Le&Eq). destruct St as [St|[St Nx]]; rewrite St.
       * exists y; auto.
       * eexists; split; [reflexivity|]. cbn. specialize (Sl _ Ey). split; [lia|]. intros E. exfalso. lia.
-    + intros x Hx. destruct (O x Hx) as [Hf|Hb]; [left; right; exact Hf|right; exact Hb].
+    + intros x Hx. destruct (O x Hx) as [Hf|Hb]; [left; apply Fl; exact Hf|right; exact Hb].
 Qed.
 
 Lemma id_inv_frame st0 s s' :
